@@ -49,7 +49,7 @@ def fixed_pairs(w, n, k0, shift=0.0):
 
 
 @st.composite
-def axis(draw, min_bins=1, max_bins=6, forms=("edges", "pairs", "static", "numpy", "fixed", "exp"), gapped=None, adaptive=False):
+def axis(draw, min_bins=1, max_bins=6, forms=("edges", "pairs", "static", "numpy", "fixed", "exp"), gapped=None, adaptive=False, narrow=False):
     form = draw(st.sampled_from(list(forms))) if not adaptive else "fixed"
     ax: Dict[str, Any] = {"form": form}
     if form == "fixed":
@@ -67,7 +67,7 @@ def axis(draw, min_bins=1, max_bins=6, forms=("edges", "pairs", "static", "numpy
         e = (10.0 ** (log_min + np.arange(n + 1) * log_width)).tolist()
         ax["pairs"] = [[a, b] for a, b in zip(e[:-1], e[1:])]
     elif form in ("pairs", "static"):
-        ax["pairs"] = draw(gen.pairs(min_bins, max_bins, gapped=gapped))
+        ax["pairs"] = draw(gen.pairs(min_bins, max_bins, gapped=gapped, narrow=narrow))
         ax["incl"] = draw(st.booleans()) if form == "static" else True
     else:
         ax["pairs"] = draw(gen.pairs(min_bins, max_bins, gapped=False))
@@ -111,11 +111,11 @@ def meta(draw, ndim, rich=True):
 
 @st.composite
 def hist_spec(draw, dims=(1, 2, 3), dtypes=ALL_DTYPES, max_bins=6, gapped=None, forms=("edges", "pairs", "static", "numpy", "fixed", "exp"),
-              adaptive=None, with_missed=True, custom_err=True, nan_missed=False, keep_missed=None, rich_meta=True, allow_zero=True, near_err=False):
+              adaptive=None, with_missed=True, custom_err=True, nan_missed=False, keep_missed=None, rich_meta=True, allow_zero=True, near_err=False, narrow=False):
     d = draw(st.sampled_from(list(dims)))
     adp = draw(st.booleans()) if adaptive is None else adaptive
     mb = max_bins if d <= 2 else max(2, max_bins - 2)
-    axes = [draw(axis(1, mb, forms=forms, gapped=(gapped if d == 1 else False) if gapped is not None else (None if d == 1 else draw(st.sampled_from([False, False, None]))), adaptive=adp)) for _ in range(d)]
+    axes = [draw(axis(1, mb, forms=forms, gapped=(gapped if d == 1 else False) if gapped is not None else (None if d == 1 else draw(st.sampled_from([False, False, None]))), adaptive=adp, narrow=narrow)) for _ in range(d)]
     dtype = draw(st.sampled_from(list(dtypes)))
     shape = [len(ax["pairs"]) for ax in axes]
     elem = content_values(dtype, allow_zero)
